@@ -1,5 +1,6 @@
 import HC.Proofs.File
 import HC.Model.Tree
+import HC.Proofs.Replica
 /-!
 # C14 — behaviour and bytes are independent of storage backend and node cache
 
@@ -13,6 +14,15 @@ The model runs over a flat file of bytes.  What makes the choice of backend irre
 * `cache_transparent`: a node cache whose entries are non-blank nodes of the store (what
   `infos_to_nodes` inserts) never changes the result of a node lookup, for any content — hence any
   capacity and eviction policy.
+
+* `cache_inv_transparent`, `cache_inv_fill`, `cache_inv_evict`, `cache_inv_insert`, `cache_inv_flush`: the
+  invariant that makes the cache invisible **along a history** — `CacheInv` (every cached node is the non-blank
+  node the tree *store* holds at that index: what `infos_to_nodes` and `to_node_cache` insert) together with
+  `Agree` (an unflushed node never contradicts a non-blank stored node: appended nodes sit on fresh slots, a
+  replica's nodes were compared with the stored ones) gives the same answer with and without the cache although
+  the cache is consulted *before* the unflushed map; the invariant survives cache fills from the store,
+  evictions of any kind, new unflushed nodes that agree with the store, and `flush_nodes` (which moves the
+  unflushed nodes to their slots and empties the map: `Replica.flush_lookup`).
 
 That `random-access-memory` (paged), `random-access-disk` (sparse or not) and the instrumented
 backend realise the flat file is validated by running them against it on random operation sequences;
@@ -68,5 +78,97 @@ theorem cache_fill_ok (cache : Nat → Option Node) (t : Tree) (f : File)
       rw [hn] at this
       cases this
   · exact hsub i n h
+
+/-! ## the cache along a history -/
+open HC.TreeStore in
+/-- what the tree store alone answers for index `i` (`none` = out of bounds or blank) -/
+def storeNode (f : File) (i : Nat) : Option Node :=
+  match f.read (i * Spec.nodeSize) Spec.nodeSize with
+  | none => none
+  | some bs => let n := nodeOfBytes i bs; if n.blank then none else some n
+
+theorem node?_noUnflushed (t : Tree) (f : File) (i : Nat) : ({ t with unflushed := {} } : Tree).node? f i = storeNode f i := by
+  simp only [Tree.node?, storeNode, Std.HashMap.getElem?_empty]
+  cases f.read (i * Spec.nodeSize) Spec.nodeSize <;> rfl
+
+theorem storeNode_nonblank (f : File) (i : Nat) (n : Node) (h : storeNode f i = some n) : n.blank = false := by
+  unfold storeNode at h
+  split at h
+  · cases h
+  · simp only at h
+    split at h
+    · cases h
+    · rename_i hb
+      cases h
+      simpa using hb
+
+/-- every cached node is the non-blank node of the store at that index -/
+def CacheInv (cache : Nat → Option Node) (f : File) : Prop := ∀ i n, cache i = some n → storeNode f i = some n
+/-- an unflushed node never contradicts a non-blank stored node -/
+def Agree (t : Tree) (f : File) : Prop := ∀ i u n, t.unflushed[i]? = some u → storeNode f i = some n → u = n
+
+theorem cache_sub (cache : Nat → Option Node) (t : Tree) (f : File) (hc : CacheInv cache f) (ha : Agree t f) :
+    ∀ i n, cache i = some n → t.node? f i = some n := by
+  intro i n h
+  have hs := hc i n h
+  unfold Tree.node?
+  cases hu : t.unflushed[i]? with
+  | none =>
+    unfold storeNode at hs
+    cases hr : f.read (i * Spec.nodeSize) Spec.nodeSize with
+    | none => rw [hr] at hs; cases hs
+    | some bs => rw [hr] at hs; simpa using hs
+  | some u =>
+    have := ha i u n hu hs
+    subst this
+    simp [storeNode_nonblank f i u hs]
+
+/-- **the cache is invisible** although it is consulted before the unflushed map -/
+theorem cache_inv_transparent (cache : Nat → Option Node) (t : Tree) (f : File) (hc : CacheInv cache f) (ha : Agree t f) (i : Nat) :
+    nodeWithCache cache t f i = t.node? f i :=
+  cache_transparent cache t f (cache_sub cache t f hc ha) i
+
+/-- `infos_to_nodes` / `to_node_cache`: a non-blank node read from the store is inserted -/
+theorem cache_inv_fill (cache : Nat → Option Node) (f : File) (hc : CacheInv cache f) (j : Nat) (n : Node) (h : storeNode f j = some n) :
+    CacheInv (fun k => if k = j then some n else cache k) f := by
+  intro i m hm
+  simp only at hm
+  split at hm
+  · rename_i e; subst e; cases hm; exact h
+  · exact hc i m hm
+
+/-- any eviction policy (capacity, time to live, time to idle) -/
+theorem cache_inv_evict (cache cache' : Nat → Option Node) (f : File) (hc : CacheInv cache f)
+    (hsub : ∀ i n, cache' i = some n → cache i = some n) : CacheInv cache' f :=
+  fun i n h => hc i n (hsub i n h)
+
+/-- a commit adds unflushed nodes; `Agree` is kept when each agrees with what the store holds at its slot -/
+theorem cache_inv_insert (t : Tree) (f : File) (ha : Agree t f) (n : Node) (hn : ∀ m, storeNode f n.index = some m → n = m) :
+    Agree (t.addNode n) f := by
+  intro i u m hu hs
+  simp only [Tree.addNode, Std.HashMap.getElem?_insert] at hu
+  split at hu
+  · rename_i e
+    have e' : n.index = i := by simpa using e
+    subst e'; cases hu; exact hn m hs
+  · exact ha i u m hu hs
+
+/-- `flush_nodes`: the unflushed nodes go to their slots, the map is emptied; both invariants survive -/
+theorem cache_inv_flush (cache : Nat → Option Node) (t : Tree) (f : File) (hwf : TreeStore.MapWF t.unflushed) (hal : f.size % 40 = 0)
+    (hc : CacheInv cache f) (ha : Agree t f) :
+    ∃ L : List Node, t.flush = ({ t with unflushed := {} }, L.map fun n => SOp.write .tree (n.index * Spec.nodeSize) (nodeBytes n))
+      ∧ CacheInv cache (TreeStore.writeSlots f L) ∧ Agree { t with unflushed := {} } (TreeStore.writeSlots f L)
+      ∧ (TreeStore.writeSlots f L).size % 40 = 0 := by
+  obtain ⟨L, h1, h2, h3⟩ := Replica.flush_lookup t f hwf hal
+  refine ⟨L, h1, ?_, ?_, h3⟩
+  · intro i n h
+    rw [← node?_noUnflushed t, h2 i]
+    exact cache_sub cache t f hc ha i n h
+  · intro i u n hu _
+    simp at hu
+
+/-- non-vacuity: the empty cache over any store, and a tree without unflushed nodes -/
+example (f : File) : CacheInv (fun _ => none) f := fun _ _ h => by cases h
+example (t : Tree) (f : File) : Agree { t with unflushed := {} } f := fun i u n hu _ => by simp at hu
 
 end HC.C14
